@@ -81,6 +81,33 @@ def gen_obligations(g, P):
     return obligs, infos, inapp
 
 
+def _gen_worker(args):
+    """runs in a forked child: obligations of one function (or one lemma), serialised to SMT-LIB text"""
+    kind, q = args
+    from pyvc.discharge import serialise
+    g = make_gen()
+    if kind == 'fn':
+        obs, infos, inapp = gen_obligations(g, dict(functions=[q]))
+    else:
+        obs, infos, inapp = gen_obligations(g, dict(functions=[], lemmas=[q]))
+    return serialise(obs), serialise(canaries(obs)), infos, inapp
+
+
+def gen_parallel(P, procs=12):
+    import multiprocessing as mp
+    tasks = [('fn', q) for q in P['functions']] + [('lemma', l) for l in P.get('lemmas', [])]
+    ctx = mp.get_context('fork')
+    with ctx.Pool(min(procs, max(1, len(tasks)))) as pool:
+        parts = pool.map(_gen_worker, tasks, chunksize=1)
+    items, cans, infos, inapp = [], [], [], []
+    for a, b, c, d in parts:
+        items += a
+        cans += b
+        infos += c
+        inapp += d
+    return items, cans, infos, inapp
+
+
 def canaries(obligs):
     """vacuity guard (c): per function and per loop, `False` must not be provable from the hypotheses of EVERY path that
     reaches a return / the end of the loop body (a single infeasible path is normal: sequential ifs on the same test)"""
@@ -151,11 +178,17 @@ def main():
     lines = []
     status = 0
     try:
+        from pyvc.discharge import discharge_texts
         g = make_gen()
-        obligs, infos, inapp = gen_obligations(g, P)
-        axioms = [AXIOMS[x] for x in P.get('axioms', [])]
-        res = discharge(obligs, axioms=[], timeout=timeout, both=(tier == 'thorough'))
-        cres = discharge(canaries(obligs), timeout=2, jobs=16)
+        tg = time.time()
+        items, cans, infos, inapp = gen_parallel(P)
+        t_gen = time.time() - tg
+        tg = time.time()
+        res = discharge_texts(items, timeout=timeout, both=(tier == 'thorough'))
+        t_dis = time.time() - tg
+        tg = time.time()
+        cres = discharge_texts(cans, timeout=2, jobs=16)
+        t_can = time.time() - tg
     except Exception:
         print('CHECKER-ERROR', prop, traceback.format_exc()[-1500:])
         sys.exit(3)
@@ -257,6 +290,7 @@ def main():
             static_obligations=statics,
             samples=samples,
             solver_s_total=round(sum(r['time'] for r in res), 2),
+            phase_wall_s=dict(vc_generation=round(t_gen, 1), discharge=round(t_dis, 1), vacuity_canaries=round(t_can, 1)),
             undecided_clauses=P.get('undecided_clauses', []),
             termination_unproved=P.get('termination_unproved', []),
             bounded_standins=[dict(what=P.get('oracle_what', 'executable contracts of the same clauses run on the real code over enumerated / seeded small inputs (bounded: never counted in discharged)'),
